@@ -89,5 +89,27 @@ class BytesUpperCodec(FileCodecProtocol):
             return f.read()[2:]
 
 
-CODECS = {"tagstr": (TagStrCodec, "file"), "objjson": (ObjJsonCodec, "file"), "objpickle2": (ObjPickle2Codec, "codec"),
+class PkgObj2Codec(FileCodecProtocol):
+    """Registered for the class exported by the package: ddsim.storesim.Obj2 (not for ddsim.storesim.values.Obj2)."""
+
+    def ref(self):
+        return ProtocolRef("user.pkgobj2")
+
+    def handled_types(self):
+        return [SupportedType("ddsim.storesim.Obj2")]
+
+    def serialize_into(self, blob, loc):
+        _note("user.pkgobj2", "ser", loc)
+        with open(str(loc), "w") as f:
+            json.dump({"n": blob.n}, f)
+
+    def deserialize_from(self, loc):
+        from ddsim.storesim import Obj2
+
+        _note("user.pkgobj2", "de", loc)
+        with open(str(loc)) as f:
+            return Obj2(json.load(f)["n"])
+
+
+CODECS = {"pkgobj2": (PkgObj2Codec, "file"),"tagstr": (TagStrCodec, "file"), "objjson": (ObjJsonCodec, "file"), "objpickle2": (ObjPickle2Codec, "codec"),
           "bytes2": (BytesUpperCodec, "file")}
